@@ -102,7 +102,8 @@ impl StateMachine<'_> {
 
     fn enter_theirs(&mut self, merge_parents: &MergeParents) -> bool {
         use State::*;
-        if self.line.starts_with("++=======") {
+        // (exactly seven '=': a longer run, e.g. the underline of a heading, is content)
+        if self.line == "++=======" || self.line.starts_with("++======= ") {
             self.state = MergeConflict(merge_parents.clone(), Theirs);
             true
         } else {
@@ -499,7 +500,8 @@ index 27d47c0,3a7e7b9..0000000
  +                    );
 ++||||||| parent of b2b28c8... Display merge conflict branches
 ++            MergeConflict(Ancestral) => {
-++                if self.line.starts_with("++=======") {
+++                // (exactly seven '=': a longer run, e.g. the underline of a heading, is content)
+        if self.line == "++=======" || self.line.starts_with("++======= ") {
 ++                    self.state = MergeConflict(Theirs);
 ++                } else if self.line.starts_with("++>>>>>>>") {
 ++                    self.paint_buffered_merge_conflict_lines(diff_type)?;
@@ -570,7 +572,8 @@ index 27d47c0,3a7e7b9..0000000
  +
  +    fn enter_theirs(&mut self, merge_parents: &MergeParents) -> bool {
  +        use State::*;
- +        if self.line.starts_with("++=======") {
+ +        // (exactly seven '=': a longer run, e.g. the underline of a heading, is content)
+        if self.line == "++=======" || self.line.starts_with("++======= ") {
  +            self.state = MergeConflict(merge_parents.clone(), Theirs);
  +            true
  +        } else {
@@ -632,7 +635,8 @@ index 27d47c0,3a7e7b9..0000000
 + 
 +     fn enter_theirs(&mut self) -> bool {
 +         use State::*;
-+         if self.line.starts_with("++=======") {
++         // (exactly seven '=': a longer run, e.g. the underline of a heading, is content)
+        if self.line == "++=======" || self.line.starts_with("++======= ") {
 +             self.state = MergeConflict(Theirs);
 +             true
 +         } else {
@@ -995,7 +999,8 @@ index 27d47c0,3a7e7b9..0000000
  +                    );
 ++||||||| parent of b2b28c8... Display merge conflict branches
 ++            MergeConflict(Ancestral) => {
-++                if self.line.starts_with("++=======") {
+++                // (exactly seven '=': a longer run, e.g. the underline of a heading, is content)
+        if self.line == "++=======" || self.line.starts_with("++======= ") {
 ++                    self.state = MergeConflict(Theirs);
 ++                } else if self.line.starts_with("++>>>>>>>") {
 ++                    self.paint_buffered_merge_conflict_lines(diff_type)?;
@@ -1060,7 +1065,8 @@ index 27d47c0,3a7e7b9..0000000
  +
  +    fn enter_theirs(&mut self, merge_parents: &MergeParents) -> bool {
  +        use State::*;
- +        if self.line.starts_with("++=======") {
+ +        // (exactly seven '=': a longer run, e.g. the underline of a heading, is content)
+        if self.line == "++=======" || self.line.starts_with("++======= ") {
  +            self.state = MergeConflict(merge_parents.clone(), Theirs);
  +            true
  +        } else {
@@ -1122,7 +1128,8 @@ index 27d47c0,3a7e7b9..0000000
 + 
 +     fn enter_theirs(&mut self) -> bool {
 +         use State::*;
-+         if self.line.starts_with("++=======") {
++         // (exactly seven '=': a longer run, e.g. the underline of a heading, is content)
+        if self.line == "++=======" || self.line.starts_with("++======= ") {
 +             self.state = MergeConflict(Theirs);
 +             true
 +         } else {
